@@ -488,8 +488,10 @@ def property_violations(c, prog, obs, outcome, dash_bytes, preamble):
     os_ok = not (c["out"] == "file" and c["sub"] in CREATE_FAILS + ("dev-full",)) \
         and not (c["out"] == "run" and c["sub"] == "missing-lua")
     should_succeed = compile_ok and run_ok and cls != "no-file-argument"
-    # 1. exit status
-    if os_ok:
+    # 1. exit status  (under the file-size limit the verdict is left to the all-or-nothing check below)
+    if c["out"] == "file" and c["sub"].startswith("fsize-limit") and compile_ok:
+        pass
+    elif os_ok:
         if (obs["status"] == 0) != should_succeed:
             v.append(("exit-status", "status %d but compilation%s %s" % (
                 obs["status"], "/execution" if c["out"] == "run" else "", "succeeded" if should_succeed else "failed")))
@@ -586,8 +588,14 @@ def nostd_violations(ctx, by_key, preamble):
             v.append(("no-std", "%s: lines of the --no-std output missing from the std output: %r" % (cls, list(miss)[:3])))
         pairs.append((variant, cls, b, nb))
     traces = 0
+    res = None
     if pairs:
-        res = lua_run.run_lua([x for p in pairs for x in (p[2], p[3])])
+        try:
+            res = lua_run.run_lua([x for p in pairs for x in (p[2], p[3])])
+        except Exception as e:      # the Lua model (another part of the development) does not build right now
+            _state["lua_model_unavailable"] = str(e)[-400:]
+            vlib.log("C20: Lua model unavailable, --no-std trace comparison skipped")
+    if res:
         for i, (variant, cls, b, nb) in enumerate(pairs):
             a, bb = res[2 * i], res[2 * i + 1]
             traces += 1
@@ -717,7 +725,10 @@ def oracle(ctx):
     for tag, text in rv + nv:
         viols.append({"classifier": "c20:" + tag, "what": text})
     panics = sum(1 for o in obs if o["status"] == 101)
-    return viols, {"require_pairs_checked": nreq, "no_std_trace_pairs": ntr, "panics_observed_status_101": panics}
+    extra = {"require_pairs_checked": nreq, "no_std_trace_pairs": ntr, "panics_observed_status_101": panics}
+    if _state.get("lua_model_unavailable"):
+        extra["lua_model_unavailable"] = _state["lua_model_unavailable"]
+    return viols, extra
 
 
 def always(ctx):
